@@ -147,7 +147,7 @@ def run(ctx: core.Ctx) -> core.Report:
                 "over 3 peers x 3 services x 3 eventgroups with TTL in {1,2,3,0xFFFFFE,forever}, refreshes before / at / after "
                 "the deadline (also between fire and run), clock jumps past 0xFFFFFF s; every step compared with the Lean "
                 "model; expiry notifications judged by an exact reference trace; non-trivial = scenario with notifications")
-    stateful.run_scenarios(ctx, rep, make, oracle, ctx.n(60, 900), "c09")
+    stateful.run_scenarios(ctx, rep, make, oracle, ctx.n(160, 2400), "c09")
     return rep
 
 
